@@ -280,7 +280,14 @@ class NDArr(PyNative):
         flat = self.flat()
         if len(flat) > 1000:
             flat = flat[:3] + ["..."] + flat[-3:]
-        return "[" + ", ".join(v if isinstance(v, str) else f"{float(v):.8g}" for v in flat) + "]"
+        def one(v):
+            if isinstance(v, str):
+                return v
+            try:
+                return f"{float(v):.8g}"
+            except (TypeError, ValueError):
+                return repr(v)  # symbolic entries
+        return "[" + ", ".join(one(v) for v in flat) + "]"
 
     def __repr__(self):
         return f"array({self._render()})"
